@@ -53,6 +53,18 @@ PROPS["C09"] = {
     "assumptions": ["the index (IndexedPrefix/SuffixAdapters) is one Matchable among the others, as the statement excludes it"],
 }
 
+PROPS["C17"] = {
+    "level": "other",
+    "text": "Proof that SingleMatch/LinkedMatch.get_info_records split the read they are given exactly at the match coordinates "
+            "(three fields concatenate to it, qualities split alike, ;1/;2 rows) and that InfoFileWriter.__call__ prints at least one "
+            "row per read and per match while following the chain of rounds — under the precondition that the stored original read is "
+            "the string the first match was computed on.  That precondition is NOT established by the pipeline when a 5' modification "
+            "(-u N, -q X,Y) runs before adapter trimming: known finding, demonstrated natively.",
+    "note": "Trusted: print semantics (ghost row counter), dnaio record contract.  Bounded: the pipeline-level precondition is only "
+            "exercised by a native stand-in on a grid of command lines.",
+    "assumptions": ["rows are observed through a ghost counter and ghost assertions at the print statement, not through the file"],
+}
+
 _PENDING = "check not built yet in this revision (see DESIGN.md section 7 for the build order)"
 NOT_APPLICABLE = {
     "C12": "quantifies over fault sequences, crash points and schedules and contains a liveness clause; malformed-input detection "
